@@ -58,14 +58,17 @@ fn permutations(n: usize) -> Vec<Vec<usize>> {
 pub fn add_policy(ps: &mut PolicySet, p: &J, sid: &str, syn: usize) -> R<()> {
     let is_template = p.get("template").and_then(|x| x.as_bool()).unwrap_or(false);
     if is_template {
-        // template + link; the template gets a derived id
-        let tid = format!("T/{sid}");
-        let t = if syn == 0 {
-            Template::parse(Some(PolicyId::new(&tid)), render::policy_text(p)?).map_err(|e| format!("template parse: {e}"))?
-        } else {
-            Template::from_json(Some(PolicyId::new(&tid)), render::policy_est(p)?).map_err(|e| format!("template json: {e}"))?
-        };
-        ps.add_template(t).map_err(|e| e.to_string())?;
+        // template + link; the template gets a derived id, or the shared id `tid` when several links
+        // of the case instantiate one template (the first of them adds it)
+        let tid = p.get("tid").and_then(|x| x.as_str()).map(String::from).unwrap_or_else(|| format!("T/{sid}"));
+        if ps.template(&PolicyId::new(&tid)).is_none() {
+            let t = if syn == 0 {
+                Template::parse(Some(PolicyId::new(&tid)), render::policy_text(p)?).map_err(|e| format!("template parse: {e}"))?
+            } else {
+                Template::from_json(Some(PolicyId::new(&tid)), render::policy_est(p)?).map_err(|e| format!("template json: {e}"))?
+            };
+            ps.add_template(t).map_err(|e| e.to_string())?;
+        }
         let mut vals = HashMap::new();
         for (k, v) in as_obj(&p["slots"])?.iter() {
             let slot = if k == "principal" { SlotId::principal() } else { SlotId::resource() };
